@@ -353,7 +353,7 @@ impl World {
                 if *e != E::EncapError {
                     return Err(self.viol("setup_s.error-kind", "sender setup fails only with EncapError".into(), format!("{:?}", e)));
                 }
-                if self.is(&[P::C10, P::C13, P::C14, P::C02, P::C03]) && refr.is_some() && bundle_ok {
+                if self.is(&[P::C10, P::C13, P::C14, P::C02, P::C03, P::C01, P::C18]) && refr.is_some() && bundle_ok {
                     return Err(self.viol("setup_s.spurious-failure", "Ok (no DH result is zero)".into(), "Err(EncapError)".into()));
                 }
                 cov.hit("setup_s.encap_error");
@@ -365,7 +365,7 @@ impl World {
             Ok(_) => {}
         }
         let (enc, ctx) = real.unwrap();
-        if refr.is_none() && bundle_ok && self.is(&[P::C10, P::C13, P::C14, P::C02, P::C03]) {
+        if refr.is_none() && bundle_ok && self.is(&[P::C10, P::C13, P::C14, P::C02, P::C03, P::C01, P::C18]) {
             return Err(self.viol("setup_s.zero-dh-accepted", "Err(EncapError): a Diffie-Hellman result is all-zero".into(), format!("Ok(enc={})", hex(&enc))));
         }
         if self.is(&[P::C02, P::C03, P::C14, P::C18]) {
@@ -509,7 +509,7 @@ impl World {
                 if *e != E::DecapError {
                     return Err(self.viol("setup_r.error-kind", "receiver setup fails only with DecapError".into(), format!("{:?}", e)));
                 }
-                if self.is(&[P::C10, P::C13, P::C14, P::C02, P::C03]) && refr.is_some() && bundle_ok {
+                if self.is(&[P::C10, P::C13, P::C14, P::C02, P::C03, P::C01, P::C18]) && refr.is_some() && bundle_ok {
                     return Err(self.viol("setup_r.spurious-failure", "Ok (no DH result is zero)".into(), "Err(DecapError)".into()));
                 }
                 cov.hit("setup_r.decap_error");
@@ -521,7 +521,7 @@ impl World {
             Ok(_) => {}
         }
         let ctx = real.unwrap();
-        if refr.is_none() && bundle_ok && self.is(&[P::C10, P::C13, P::C14, P::C02, P::C03]) {
+        if refr.is_none() && bundle_ok && self.is(&[P::C10, P::C13, P::C14, P::C02, P::C03, P::C01, P::C18]) {
             return Err(self.viol("setup_r.zero-dh-accepted", "Err(DecapError): a Diffie-Hellman result is all-zero".into(), "Ok(context)".into()));
         }
         if self.p == P::C16 {
